@@ -763,6 +763,13 @@ def shapes_check(pid, tier, seed):
                     got = vlib.simulate(work, sm['constants'], max(20, sm['num'] // (3 if q else 1)), sm['depth'], seed + 11 + si)
                     for bi, steps in enumerate(got):
                         behs.append(dict(id='C17-%s-%d-%d' % (src, si, bi), cfg=sm.get('genesis', {}), views='', steps=steps))
+            # ... and a small DID state graph with rich documents (controller, services) and verification-method ids of other DIDs:
+            # every message of the alphabet is fired at every state (handlers must return an error, not crash, for every stored document)
+            tourc = configs.did(DocNames=S(['A1', 'R1']), Dids=S(['d1', 'dc']), ViewDids=S(['d1', 'dc']), Keys=S(['k1']), VmNames=S(['v1']), Seqs=S([0, 1]),
+                                ForeignVm=True, MaxDeliver=1 if q else 2, MaxHeight=2)
+            paths, alphabet, _, _ = vlib.tours(work, tourc)
+            for ti, pth in enumerate([p for p in paths if all(a.get('name') != 'Deliver' or a.get('result') == 'ok' for a in p)]):
+                behs.append(dict(id='C17-didtour-%d' % ti, cfg={}, views='', steps=pth, fire=alphabet))
             tr = vlib.replay(work, harness, behs)
             v3, d3, l3, _ = vlib.validate(work, tr)
             for v in v3:
